@@ -13,7 +13,7 @@ sys.path.insert(0, os.path.dirname(os.path.abspath(__file__)))
 import vf
 import codec_common as cc
 
-CLASSES = ["valid", "trail", "trunc_at", "trunc_in", "disc", "len_pm", "nonmin", "flip", "map_swap", "map_dup", "map_dup2", "frame_len", "frame_tag", "pad_bits"]
+CLASSES = ["valid", "trail", "trunc_at", "trunc_in", "disc", "len_pm", "len_set", "nonmin", "flip", "map_swap", "map_dup", "map_dup2", "frame_len", "frame_tag", "pad_bits"]
 
 
 def run(ctx):
